@@ -281,20 +281,105 @@ func gen(c *ex.Ctx) {
 	})
 	sb.WriteString("]\n\n")
 
-	// Close(): the statements in order (one line each), so that the guard and its position are visible
+	// Close() / Suspend(): protocol skeleton = guards on, and assignments to, vx.closed / vx.suspended, and the
+	// calls that matter for the hand-shake, in source order (locals, logging and terminal restoration are ignored)
 	vf := c.Parse("vaxis.go")
-	for _, nm := range []string{"Close", "Suspend", "PostEvent", "PostEventBlocking"} {
+	keep := map[string]bool{"PostEvent": true, "PostEventBlocking": true, "Suspend": true, "close": true, "Close": true,
+		"WaitClose": true, "WriteString": true}
+	for _, nm := range []string{"Close", "Suspend"} {
 		fd := ex.FindFunc(vf, "Vaxis", nm)
 		if fd == nil {
 			c.Fail("vaxis.go: %s not found", nm)
 			return
 		}
 		var q []string
-		for _, st := range fd.Body.List {
-			q = append(q, ex.LeanStr(strings.Join(strings.Fields(c.Src(st)), " ")))
-		}
-		fmt.Fprintf(&sb, "def stmts_%s : List String := [\n  %s\n]\n\n", nm, strings.Join(q, ",\n  "))
+		ast.Inspect(fd.Body, func(n ast.Node) bool {
+			switch x := n.(type) {
+			case *ast.IfStmt:
+				cond := c.Src(x.Cond)
+				if cond == "vx.closed" || cond == "vx.suspended" {
+					q = append(q, ex.LeanStr("if:"+cond))
+				}
+			case *ast.AssignStmt:
+				l := c.Src(x.Lhs[0])
+				if l == "vx.closed" || l == "vx.suspended" {
+					q = append(q, ex.LeanStr("set:"+l+"="+c.Src(x.Rhs[0])))
+				}
+			case *ast.DeferStmt:
+				q = append(q, ex.LeanStr("defer:"+strings.Join(strings.Fields(c.Src(x.Call)), " ")))
+				return false
+			case *ast.CallExpr:
+				name := ""
+				recv := ""
+				switch f := x.Fun.(type) {
+				case *ast.SelectorExpr:
+					name = f.Sel.Name
+					recv = c.Src(f.X)
+				case *ast.Ident:
+					name = f.Name
+				}
+				if keep[name] && !strings.HasPrefix(recv, "vx.tw") {
+					if recv != "" {
+						name = recv + "." + name
+					}
+					q = append(q, ex.LeanStr(name))
+				}
+			}
+			return true
+		})
+		fmt.Fprintf(&sb, "def skeleton_%s : List String := [%s]\n\n", nm, strings.Join(q, ", "))
 	}
+	// PostEvent / PostEventBlocking: how the send on the queue is written
+	sb.WriteString("/-- (function, kinds of its channel sends): blocking = bare send, nonblocking = select with default. -/\ndef postKinds : List (String × List String) := [")
+	for i, nm := range []string{"PostEvent", "PostEventBlocking"} {
+		fd := ex.FindFunc(vf, "Vaxis", nm)
+		if fd == nil {
+			c.Fail("vaxis.go: %s not found", nm)
+			return
+		}
+		inSel := map[*ast.SendStmt]string{}
+		ast.Inspect(fd.Body, func(n ast.Node) bool {
+			sel, ok := n.(*ast.SelectStmt)
+			if !ok {
+				return true
+			}
+			hasDefault := false
+			for _, cl := range sel.Body.List {
+				if cl.(*ast.CommClause).Comm == nil {
+					hasDefault = true
+				}
+			}
+			for _, cl := range sel.Body.List {
+				if st, ok := cl.(*ast.CommClause).Comm.(*ast.SendStmt); ok {
+					if hasDefault {
+						inSel[st] = "nonblocking"
+					} else {
+						inSel[st] = "blocking"
+					}
+				}
+			}
+			return true
+		})
+		var kinds []string
+		ast.Inspect(fd.Body, func(n ast.Node) bool {
+			switch x := n.(type) {
+			case *ast.GoStmt:
+				kinds = append(kinds, ex.LeanStr("go"))
+			case *ast.SendStmt:
+				k := inSel[x]
+				if k == "" {
+					k = "blocking"
+				}
+				kinds = append(kinds, ex.LeanStr(k))
+			}
+			return true
+		})
+		if i > 0 {
+			sb.WriteString(", ")
+		}
+		fmt.Fprintf(&sb, "(%s, [%s])", ex.LeanStr(nm), strings.Join(kinds, ", "))
+	}
+	sb.WriteString("]\n\n")
 	// the input goroutine: which variable its select reads the parser from
 	ot := ex.FindFunc(vf, "Vaxis", "openTty")
 	if ot == nil {
